@@ -343,7 +343,43 @@ def h10():
             {"retort": r, "post": lambda: [repr(got["loader"](HOLDER_DATA)), repr(r.load(HOLDER_DATA, Holder)), failing(r)]})
 
 
-HARNESSES = {"H10": h10, "H1": h1, "H2": h2, "H3": h3, "H4": h4, "H5": h5, "H6": h6, "H7": h7, "H8": h8, "H9": h9}
+@dataclass
+class Wide:
+    a: int
+    b: int
+    c: List[int]
+    d: List[int]
+    e: Optional[int]
+    f: Optional[int]
+    n: Optional[Node]
+
+
+WIDE_OBJ = Wide(1, 2, [3], [4], 5, None, Node(1, [Node(2, [])]))
+WIDE_DATA = {"a": 1, "b": 2, "c": [3], "d": [4], "e": 5, "f": None, "n": {"v": 1, "children": [{"v": 2, "children": []}]}}
+
+
+def h11():
+    """a FAILING loader request next to a first use of a DUMPER (and the other way round) of a model whose creation asks the
+    retort-wide call cache for the same keys several times: the clean-up after the failure must not be interleaved with a request
+    of another class"""
+    _fresh_world()
+    r = Retort()
+
+    def failing():
+        out = []
+        for tp in (HoldsNoLoader, NoLoader):
+            try:
+                r.get_loader(tp)
+                out.append("created")
+            except ProviderNotFoundError:
+                out.append("refused")
+        return repr(out)
+
+    return ([failing, lambda: repr(r.dump(WIDE_OBJ, Wide))],
+            {"retort": r, "post": lambda: [repr(r.dump(WIDE_OBJ, Wide)), repr(r.load(WIDE_DATA, Wide)), failing()]})
+
+
+HARNESSES = {"H10": h10, "H11": h11, "H1": h1, "H2": h2, "H3": h3, "H4": h4, "H5": h5, "H6": h6, "H7": h7, "H8": h8, "H9": h9}
 
 _EXPECTED = {}
 
@@ -449,9 +485,9 @@ def explore_shard(args):
 
 PLAN = {
     "quick": [("H1", "R1", 2), ("H4", "R1", 2), ("H2", "R1", 1), ("H3", "R1", 1), ("H5", "R1", 1), ("H6", "R1", 1),
-              ("H7", "R1", 1), ("H8", "R1", 1), ("H9", "R1", 1), ("H10", "R1", 1), ("H1", "R2", 0), ("H2", "R2", 0)],
+              ("H7", "R1", 1), ("H8", "R1", 1), ("H9", "R1", 1), ("H10", "R1", 1), ("H11", "R1", 1), ("H1", "R2", 0), ("H2", "R2", 0)],
     "thorough": [("H1", "R1", 3), ("H4", "R1", 3), ("H2", "R1", 2), ("H3", "R1", 2), ("H5", "R1", 2), ("H6", "R1", 2),
-                 ("H7", "R1", 2), ("H8", "R1", 2), ("H9", "R1", 2), ("H10", "R1", 2), ("H10", "R2", 1),
+                 ("H7", "R1", 2), ("H8", "R1", 2), ("H9", "R1", 2), ("H10", "R1", 2), ("H10", "R2", 1), ("H11", "R1", 2), ("H11", "R2", 1),
                  ("H1", "R2", 1), ("H2", "R2", 1), ("H3", "R2", 1), ("H4", "R2", 1), ("H5", "R2", 1), ("H6", "R2", 1),
                  ("H7", "R2", 1), ("H8", "R2", 1), ("H9", "R2", 1)],
 }
